@@ -46,7 +46,32 @@ var verifTemplates = []verifTemplate{
 	{"copy-into-parameter", "fn set(x: int) -> int { x = x + 5; return x; }\nfn main() {\n  let a = A;\n  println(set(a), a);\n  let f = fn(y: int) -> int { y = y * 2; y };\n  println(f(a), a);\n}\n"},
 	{"copy-out-of-function", "fn id(x: int) -> int { x }\nfn main() {\n  let a = A;\n  let l = [id(a)];\n  l[0] = C;\n  let b = id(a);\n  b += 1;\n  println(a, l[0], b);\n}\n"},
 	{"copy-out-of-container", "fn main() {\n  let l = [A, B];\n  let x = l[0];\n  x = C;\n  let o = new { f: A };\n  let y = o.f;\n  y = C;\n  for z in l { z = 0; }\n  println(l[0], l[1], o.f, x, y);\n}\n"},
+	{"range-variable-reiterated", "fn main() {\n  let r = 0..5;\n  for i in r {\n    if i == 2 { break; }\n  }\n  for i in r { println(i); }\n  let q = 0..=2;\n  for i in q { for j in q { println(i, j); } }\n}\n"},
+	{"string-variable-reiterated", "fn first(s: str, c: str) -> bool {\n  for x in s {\n    if x == c { return true; }\n  }\n  return false;\n}\nfn main() {\n  let s = \"abc\";\n  println(first(s, \"b\"), first(s, \"a\"));\n  for x in s { println(x); }\n}\n"},
+	{"range-parameter-searched-twice", "fn has(r: range, n: int) -> bool {\n  for i in r {\n    if i == n { return true; }\n  }\n  return false;\n}\nfn main() {\n  let r = 0..4;\n  println(has(r, 3), has(r, 1), has(r, A));\n}\n"},
 	{"listloop", "fn main() {\n  let l = [A, B, C];\n  let sum = 0;\n  for x in l { sum += x; }\n  println(sum, l);\n}\n"},
+}
+
+// Scoping: a `let` inside the body of every block-introducing construct shadows an outer variable only inside it.
+func init() {
+	bodies := []struct{ name, open, close string }{
+		{"then", "if A == A {", "}"},
+		{"else", "if A != A { println(0); } else {", "}"},
+		{"else-if", "if A != A { println(0); } else if B == B {", "} else { println(9); }"},
+		{"loop", "loop {", "  break;\n  }"},
+		{"while", "let w = 0;\n  while w < 1 {\n    w += 1;", "}"},
+		{"for", "for k in 0..1 {", "}"},
+		{"match-arm", "match 1 {\n    1 => {", "},\n    _ => { println(0); },\n  }"},
+		{"match-default", "match 2 {\n    1 => { println(0); },\n    _ => {", "},\n  }"},
+		{"try", "try {", "} catch e { println(e.message); }"},
+		{"catch", "try { throw(\"t\"); } catch e {", "}"},
+		{"block", "{", "}"},
+		{"block-expression", "let u = 1 + {", "  2\n  };\n  println(u);"},
+	}
+	for _, b := range bodies {
+		code := "let g = 100;\nfn show() { println(g); }\nfn main() {\n  let v = A;\n  let g = 7;\n  " + b.open + "\n    let v = B;\n    let g = 8;\n    println(v, g);\n    show();\n  " + b.close + "\n  println(v, g);\n  show();\n}\n"
+		verifTemplates = append(verifTemplates, verifTemplate{"scope-" + b.name, code})
+	}
 }
 
 // VerifHarness_Templates: each catalogue program under the oracle chosen by "mode".
